@@ -68,6 +68,9 @@ type writeCase struct {
 	Pre   []wfile `json:"pre"`   // pre-existing files inside target (relative, clean)
 	PreD  []string `json:"pred"` // pre-existing directories inside target
 	Files []wfile `json:"files"` // archive entries
+	// Via: "" = txtar.Write, "cmd-file" / "cmd-stdin" = the txtar-x command on the formatted archive
+	// (the entries are then whatever Parse makes of the formatted text).
+	Via string `json:"via,omitempty"`
 }
 
 func escapes(name string) bool {
@@ -100,28 +103,70 @@ func checkWrite(c writeCase) *vt.Fail {
 			os.WriteFile(filepath.Join(target, f.Name), f.Data, 0o666)
 		}
 	}
-	before := snap(sbx)
 	a := &txtar.Archive{}
-	anyEscape := false
 	for _, f := range c.Files {
 		a.Files = append(a.Files, txtar.File{Name: f.Name, Data: []byte(f.Data)})
+	}
+	who := "Write"
+	archFile := filepath.Join(cachekit.Scratch(), fmt.Sprintf("c15arch-%d-%d.txt", os.Getpid(), atomic.AddInt64(&seq, 1)))
+	if c.Via != "" {
+		if _, err := os.Stat(bin("txtar-x")); err != nil {
+			return nil
+		}
+		who = "txtar-x"
+		text := txtar.Format(a)
+		a = txtar.Parse(text)
+		c.Files = nil
+		for _, f := range a.Files {
+			c.Files = append(c.Files, wfile{Name: f.Name, Data: vt.B(f.Data)})
+		}
+		os.WriteFile(archFile, text, 0o666)
+		defer os.Remove(archFile)
+	}
+	before := snap(sbx)
+	anyEscape := false
+	for _, f := range c.Files {
 		if escapes(f.Name) {
 			anyEscape = true
 		}
 	}
 	var werr error
-	if f := vt.Guard("write-panic", func() *vt.Fail { werr = txtar.Write(a, target); return nil }); f != nil {
-		return f
+	switch c.Via {
+	case "":
+		if f := vt.Guard("write-panic", func() *vt.Fail { werr = txtar.Write(a, target); return nil }); f != nil {
+			return f
+		}
+	case "cmd-file", "cmd-stdin":
+		cmd := exec.Command(bin("txtar-x"), "-C", target, archFile)
+		if c.Via == "cmd-stdin" {
+			cmd = exec.Command(bin("txtar-x"), "-C", target)
+			in, err := os.Open(archFile)
+			if err != nil {
+				return nil
+			}
+			defer in.Close()
+			cmd.Stdin = in
+		}
+		cmd.Dir = sbx
+		out, err := cmd.CombinedOutput()
+		if err != nil {
+			werr = fmt.Errorf("%v: %s", err, out)
+			if ee, ok := err.(*exec.ExitError); !ok || ee.ExitCode() != 1 {
+				return vt.Failf("txtar-x-failed", "txtar-x ended abnormally (%v): %s", err, out)
+			}
+		}
+	default:
+		return nil
 	}
 	after := snap(sbx)
 	// also look one level above the sandbox for stray files named like entries
 	for k, v := range before {
 		w, ok := after[k]
 		if !ok {
-			return vt.Failf("preexisting-removed", "Write removed pre-existing %q (err=%v)", k, werr)
+			return vt.Failf("preexisting-removed", "%s removed pre-existing %q (err=%v)", who, k, werr)
 		}
 		if !v.dir && (w.dir || w.sum != v.sum) {
-			return vt.Failf("preexisting-overwritten", "Write changed the pre-existing file %q (err=%v)", k, werr)
+			return vt.Failf("preexisting-overwritten", "%s changed the pre-existing file %q (err=%v)", who, k, werr)
 		}
 	}
 	for k := range after {
@@ -129,7 +174,7 @@ func checkWrite(c writeCase) *vt.Fail {
 			continue
 		}
 		if k != "target" && !strings.HasPrefix(k, "target/") {
-			return vt.Failf("wrote-outside-dir", "Write created %q outside the target directory (err=%v)", k, werr)
+			return vt.Failf("wrote-outside-dir", "%s created %q outside the target directory (err=%v)", who, k, werr)
 		}
 	}
 	if ents, _ := os.ReadDir(filepath.Dir(sbx)); true {
@@ -142,7 +187,7 @@ func checkWrite(c writeCase) *vt.Fail {
 		}
 	}
 	if anyEscape && werr == nil {
-		return vt.Failf("escape-not-reported", "an entry name is absolute or climbs out through '..' but Write returned nil")
+		return vt.Failf("escape-not-reported", "an entry name is absolute or climbs out through '..' but %s reported no error", who)
 	}
 	if werr == nil {
 		want := map[string][]byte{}
@@ -153,7 +198,7 @@ func checkWrite(c writeCase) *vt.Fail {
 		for rel, data := range want {
 			got, err := os.ReadFile(filepath.Join(sbx, rel))
 			if err != nil || !bytes.Equal(got, data) {
-				return vt.Failf("file-content-wrong", "Write returned nil but %q holds %q (err %v), want %q", rel, got, err, data)
+				return vt.Failf("file-content-wrong", "%s reported success but %q holds %q (err %v), want %q", who, rel, got, err, data)
 			}
 		}
 		for k, v := range after {
@@ -161,7 +206,7 @@ func checkWrite(c writeCase) *vt.Fail {
 				continue
 			}
 			if _, ok := want[k]; !ok {
-				return vt.Failf("extra-file-created", "Write returned nil and created %q which is no entry of the archive", k)
+				return vt.Failf("extra-file-created", "%s reported success and created %q which is no entry of the archive", who, k)
 			}
 		}
 	}
@@ -194,6 +239,7 @@ func genWrite(t *rapid.T) writeCase {
 	for i, n := 0, rapid.IntRange(0, 2).Draw(t, "npred"); i < n; i++ {
 		c.PreD = append(c.PreD, rapid.SampledFrom([]string{"a", "b", "b/a", "c d"}).Draw(t, "predname"))
 	}
+	c.Via = rapid.SampledFrom([]string{"", "", "", "", "", "", "", "", "cmd-file", "cmd-stdin"}).Draw(t, "via")
 	for i, n := 0, rapid.IntRange(1, 5).Draw(t, "nfiles"); i < n; i++ {
 		c.Files = append(c.Files, wfile{Name: genName(t), Data: vt.B(rapid.SampledFrom([]string{"", "x\n", "data", "-- y --\n"}).Draw(t, "data") + fmt.Sprint(i))})
 	}
@@ -229,6 +275,9 @@ func metaWrite(c writeCase) vt.Meta {
 	}
 	if !esc && !coll {
 		cls = append(cls, "plain")
+	}
+	if c.Via != "" {
+		cls = append(cls, "through-txtar-x")
 	}
 	return vt.Meta{NonTrivial: esc || coll, Classes: cls}
 }
